@@ -163,6 +163,32 @@ Theorem c18_off_guard_met :
     forallb (c18_off_all_segmented_ok cfg) (wtrace w cfg ops) = true.
 Proof. exact c18_off_guard_nonvacuous. Qed.
 
+(* data buffered => something is segmented: after a completed poll, peer FIN not seen, window open,
+   a non-empty send buffer implies a non-empty segment table *)
+Theorem c18_buffered_segmented_every_step : forall (CC : Type) (cci : cc_iface CC) (cfg : vconfig) (s : vsock CC) (o : vop),
+  TI s -> c18_buffered_segmented_ok cfg (VSock_Lemmas.fstep_of cci s o) = true.
+Proof. exact @c18_buffered_segmented_ok_step. Qed.
+
+Theorem c18_buffered_segmented_every_trace : forall (CC : Type) (cci : cc_iface CC) (cfg : vconfig)
+    (mk : Z -> Z -> CC) (c : vconfig) (s0 : vsock CC) (ops : list vop),
+  vsock_new cci mk c = Some s0 -> forallb (c18_buffered_segmented_ok cfg) (ftrace cci s0 ops) = true.
+Proof. exact @c18_buffered_segmented_ok_trace. Qed.
+
+(* the guard "no undelivered probe outstanding BEFORE the poll" of c18_off_all_segmented_ok cannot be
+   dropped from the observable form: an expired probe is popped and the next-byte offset rewinds *)
+Theorem c18_off_probe_guard_is_needed :
+  exists w cfg ops,
+    vconfig_ok cfg = true /\ vc_nagle cfg = false /\
+    existsb (fun st => c18_completed st && negb (c18_no_probe_last (fs_pre st))
+                       && c18_no_probe_last (fs_post st)
+                       && negb (is_remote_fin_or_later (f_state (fs_post st)))
+                       && (0 <? f_unsegmented (fs_post st))
+                       && (f_seg_offset (fs_post st) - f_seg_offset (fs_pre st) <? f_last_remote_window (fs_post st))
+                       && (f_seg_offset (fs_post st) <? f_seg_offset (fs_pre st)))
+            (wtrace w cfg ops) = true /\
+    forallb (c18_off_all_segmented_ok cfg) (wtrace w cfg ops) = true.
+Proof. exact c18_off_probe_guard_needed. Qed.
+
 Print Assumptions c18_table_invariant_initial.
 Print Assumptions c18_table_invariant_every_step.
 Print Assumptions c18_table_invariant_meaning.
@@ -179,3 +205,6 @@ Print Assumptions c18_drain_sends_every_step.
 Print Assumptions c18_drain_sends_every_trace.
 Print Assumptions c18_nagle_guard_met.
 Print Assumptions c18_off_guard_met.
+Print Assumptions c18_buffered_segmented_every_step.
+Print Assumptions c18_buffered_segmented_every_trace.
+Print Assumptions c18_off_probe_guard_is_needed.
